@@ -13,12 +13,16 @@ import (
 	govtypes "github.com/cosmos/cosmos-sdk/x/gov/types"
 	"github.com/ethereum/go-ethereum/common"
 	"github.com/ethereum/go-ethereum/common/hexutil"
+	ethtypes "github.com/ethereum/go-ethereum/core/types"
+	corevm "github.com/ethereum/go-ethereum/core/vm"
 	ethcrypto "github.com/ethereum/go-ethereum/crypto"
 
 	cpckeeper "github.com/EscanBE/evermint/v12/x/cpc/keeper"
 	cpctypes "github.com/EscanBE/evermint/v12/x/cpc/types"
 	evmtypes "github.com/EscanBE/evermint/v12/x/evm/types"
+	evmvm "github.com/EscanBE/evermint/v12/x/evm/vm"
 
+	"verif/harness/asm"
 	"verif/harness/ev"
 	"verif/harness/world"
 )
@@ -27,7 +31,7 @@ func init() { Registry["C17"] = runC17 }
 
 // c17Op is one registry operation.
 type c17Op struct {
-	Kind      string   `json:"kind"` // deploy-erc20 | deploy-staking | update-params | set-meta
+	Kind      string   `json:"kind"`                // deploy-erc20 | deploy-staking | update-params | set-meta
 	Authority string   `json:"authority,omitempty"` // W (whitelisted candidate) | X (never whitelisted) | gov
 	Denom     string   `json:"denom,omitempty"`
 	Name      string   `json:"name,omitempty"`
@@ -273,7 +277,7 @@ func (cw *c17World) invariants(parent, ctx sdk.Context, op *c17Op, okOp bool) (b
 				continue
 			}
 			data := viewData(t)
-			for _, mode := range []string{"deliver", "check", "recheck", "ethcall"} {
+			for _, mode := range []string{"deliver", "check", "recheck", "ethcall", "create", "ethcall-create"} {
 				answered, err := cw.probe(ctx, mode, a, data)
 				if answered != want {
 					sig := ""
@@ -288,11 +292,43 @@ func (cw *c17World) invariants(parent, ctx sdk.Context, op *c17Op, okOp bool) (b
 	return bad
 }
 
-
 func (cw *c17World) probe(ctx sdk.Context, mode string, a common.Address, data []byte) (answered bool, err error) {
 	b, _ := ctx.CacheContext()
 	from := cw.w.Wallets[1].Eth()
+	// constructor code that STATICCALLs the candidate with the view call data and installs the answer as runtime code:
+	// a creation message is an execution mode of its own (the EVM is built for a message without a recipient)
+	initCode := asm.New().CallData(asm.KStaticCall, a, 0, 0, data).ReturnLastReturnData().Bytes()
 	switch mode {
+	case "create":
+		defer func() {
+			if r := recover(); r != nil {
+				answered, err = false, fmt.Errorf("panic: %v", r)
+			}
+		}()
+		k := cw.w.App.EvmKeeper
+		cfg, e := k.EVMConfig(b, nil)
+		if e != nil {
+			return false, e
+		}
+		zero := new(bigIntT)
+		msg := ethtypes.NewMessage(from, nil, cw.w.Nonce(b, from), zero, 300_000, zero, zero, zero, initCode, nil, true)
+		sdb := evmvm.NewStateDB(b, cfg.CoinBase, k, cw.w.App.AccountKeeper, cw.w.App.BankKeeper)
+		evm := k.NewEVM(b, msg, cfg, evmtypes.NewNoOpTracer(), sdb)
+		code, _, _, e := evm.Create(corevm.AccountRef(from), initCode, 300_000, zero)
+		if e != nil {
+			return false, e
+		}
+		return len(code) > 0, nil
+	case "ethcall-create":
+		args, _ := json.Marshal(evmtypes.TransactionArgs{From: &from, Data: (*hexutil.Bytes)(&initCode)})
+		res, e := cw.w.App.EvmKeeper.EthCall(b, &evmtypes.EthCallRequest{Args: args, GasCap: 1_000_000})
+		if e != nil {
+			return false, e
+		}
+		if res.VmError != "" {
+			return false, fmt.Errorf("%s", res.VmError)
+		}
+		return len(res.Ret) > 0, nil
 	case "deliver":
 	case "check":
 		b = b.WithIsCheckTx(true)
@@ -440,7 +476,7 @@ func runC17(replay string) int {
 	run.Assumptions = []string{
 		"messages are driven through ValidateBasic + the real cpc message server on CacheContext branches; a refused message or a panic in the handler discards the branch as baseapp does",
 		"set-meta is the keeper operation an upgrade handler would use (SetCustomPrecompiledContractMeta(meta, false))",
-		"exposure is probed with a view call through the real NewEVM in deliver / check / re-check contexts and through the EthCall query",
+		"exposure is probed with a view call through the real NewEVM in deliver / check / re-check contexts, through the EthCall query, and from constructor code of a creation message (real NewEVM + evm.Create, and EthCall without recipient)",
 	}
 	if replay != "" {
 		return replayCase(run, replay, func(raw json.RawMessage) []ev.Finding {
@@ -491,6 +527,6 @@ func runC17(replay string) int {
 		run.Coverage["exhaustive"] = true
 	}
 	run.Coverage["max_depth"] = depth
-	run.Coverage["rule"] = fmt.Sprintf("BFS over branch states from 8 worlds (cpc genesis flags DeployErc20 × DeployStaking × whitelist at genesis) with a %d-op alphabet: UpdateParams (authority gov/other × whitelist × protocol version 0/1/2), DeployErc20Contract (authority whitelisted/other/gov × denom {wei, utwo, no-supply, empty, padded} × metadata at validation boundaries), DeployStakingContract, and the upgrade-handler keeper op SetCustomPrecompiledContractMeta (disable / enable / change type) to depth %d; registry invariants and the exposure oracle (view call to every registered address, its successor, the next dynamic address and fixed foreign addresses in deliver/check/recheck/EthCall modes) evaluated in every distinct state", len(alpha), depth)
+	run.Coverage["rule"] = fmt.Sprintf("BFS over branch states from 8 worlds (cpc genesis flags DeployErc20 × DeployStaking × whitelist at genesis) with a %d-op alphabet: UpdateParams (authority gov/other × whitelist × protocol version 0/1/2), DeployErc20Contract (authority whitelisted/other/gov × denom {wei, utwo, no-supply, empty, padded} × metadata at validation boundaries), DeployStakingContract, and the upgrade-handler keeper op SetCustomPrecompiledContractMeta (disable / enable / change type) to depth %d; registry invariants and the exposure oracle (view call to every registered address, its successor, the next dynamic address and fixed foreign addresses in deliver/check/recheck/EthCall modes and from the constructor of a creation message) evaluated in every distinct state", len(alpha), depth)
 	return run.Finish()
 }
